@@ -161,20 +161,32 @@ class OpTimeout(Exception):
 OP_TIMEOUT_S = 15.0
 
 
+_EXO_CTX = None
+
+
 def with_watchdog(fn, timeout_s=None):
-    """Run fn(); Exo's own SMT queries have no timeout, so a watchdog thread interrupts
-    z3's main context when the call takes too long (the pending check() then raises)."""
+    """Run fn() (a call into Exo).  Exo's own SMT queries have no timeout, so a watchdog thread
+    interrupts z3 when the call takes too long.  Exo (through pysmt) uses z3's *default* context;
+    during the call the default context is switched to a private one, so that the interrupt (whose
+    cancel flag is sticky when it arrives while z3 is idle) can never poison the checker's own
+    solver state; a context that has been interrupted is discarded."""
     import threading
 
+    global _EXO_CTX
+    if _EXO_CTX is None:
+        _EXO_CTX = z3.Context()
+    ctx = _EXO_CTX
     fired = []
 
     def fire():
         fired.append(True)
         try:
-            z3.main_ctx().interrupt()
+            ctx.interrupt()
         except Exception:
             pass
 
+    saved = z3.z3._main_ctx
+    z3.z3._main_ctx = ctx
     t = threading.Timer(timeout_s or OP_TIMEOUT_S, fire)
     t.daemon = True
     t.start()
@@ -186,9 +198,9 @@ def with_watchdog(fn, timeout_s=None):
         raise
     finally:
         t.cancel()
-    if fired:
-        # the interrupt arrived too late to matter, or hit nothing
-        pass
+        z3.z3._main_ctx = saved
+        if fired:
+            _EXO_CTX = None
     return r
 
 
